@@ -2,6 +2,7 @@ package gen
 
 import (
 	"fmt"
+	"strings"
 
 	"verif/harness/ir"
 )
@@ -15,6 +16,8 @@ type RuntimeOpts struct {
 	ManyMethods bool
 	// TrailingSlash sometimes ends an RPC path with "/".
 	TrailingSlash bool
+	// RenamedQuery sometimes gives a query parameter a wire name different from its field name.
+	RenamedQuery bool
 }
 
 var urlFieldNames = []string{"user_id", "org", "page", "q", "name", "ratio", "flag", "item_id", "limit", "cursor", "since", "tenant_name"}
@@ -88,6 +91,9 @@ func GenRuntimeFile(r *R, idx int, o RuntimeOpts) *ir.Request {
 			qa := &ir.Query{Name: fn, Required: r.P(1, 5)}
 			if r.P(1, 3) {
 				qa.Name = ""
+			}
+			if o.RenamedQuery && r.P(1, 2) {
+				qa.Name = Pick(r, []string{"q_", "p-", "x"}) + strings.ReplaceAll(fn, "_", "-")
 			}
 			in.Fields = append(in.Fields, &ir.Field{Name: fn, Number: no, Kind: Pick(r, queryKinds), Ann: ir.Ann{Query: qa}})
 			no++
